@@ -169,7 +169,10 @@ pub fn search(prop: &dyn Prop, tier: Tier, seed: u64, run_from: u64, run_to: u64
                         if run >= b || hang.load(Ordering::Relaxed) {
                             break;
                         }
-                        let trace = prop.gen(seed, run, tier);
+                        let trace = match std::panic::catch_unwind(std::panic::AssertUnwindSafe(|| prop.gen(seed, run, tier))) {
+                            Ok(t) => t,
+                            Err(_) => harness_panic(prop.id(), seed, run, "generator"),
+                        };
                         if cfg!(miri) {
                             println!("MIRI-RUN {}", run);
                         }
@@ -178,7 +181,12 @@ pub fn search(prop: &dyn Prop, tier: Tier, seed: u64, run_from: u64, run_to: u64
                             g[w] = Some((run, Instant::now()));
                         }
                         let mut st = Stats::new();
-                        let findings = prop.check(&trace, &mut st);
+                        // (the library runs under its own catch_unwind inside; a panic arriving
+                        // here is the harness's own)
+                        let findings = match std::panic::catch_unwind(std::panic::AssertUnwindSafe(|| prop.check(&trace, &mut st))) {
+                            Ok(f) => f,
+                            Err(_) => harness_panic(prop.id(), seed, run, "checker"),
+                        };
                         {
                             let mut g = IN_FLIGHT.lock().unwrap();
                             g[w] = None;
@@ -436,4 +444,11 @@ pub fn merge_parts(prop: &dyn Prop, tier: Tier, tags: &[&str]) -> Result<(), Str
     let path = dir.join(format!("{}.json", prop.id()));
     std::fs::write(&path, serde_json::to_string_pretty(&ev).unwrap()).map_err(|e| e.to_string())?;
     Ok(())
+}
+
+/// A panic in the harness itself (not in the library under test, which runs under catch_unwind):
+/// never a verdict about the property. Exit code 2.
+fn harness_panic(prop: &str, seed: u64, run: u64, what: &str) -> ! {
+    eprintln!("HARNESS-ERROR property={} seed={} run={}: the {} panicked: {}", prop, seed, run, what, crate::exec::take_panic());
+    std::process::exit(2)
 }
